@@ -86,12 +86,17 @@ def run_script(sc):
             b = a[:, :, None] * 4 + np.arange(3, dtype=np.int32)[None, None, :]
             m.append({"a": a, "b": b})
             nxt += n
-    bad = []
+    bad, trees = [], []
 
-    def dec(o):
+    def dec(o, keep=True):
         if o.is_none():
             return None
         tree = o.unwrap()
+        if keep:
+            trees.append(tree)
+        if sorted(tree.keys()) != ["a", "b"]:
+            bad.append(f"a combined pytree has the leaves {sorted(tree.keys())} (the chunks had 'a' and 'b')")
+            return [-1]
         a, b = np.asarray(tree["a"]), np.asarray(tree["b"])
         ok = (a.shape[0] == nch and b.shape[:2] == a.shape and b.shape[2:] == (3,)
               and bool(np.all(a - 100000 * np.arange(nch)[:, None] == a[0][None, :]))
@@ -100,13 +105,34 @@ def run_script(sc):
             bad.append("leaves / chains of one pytree were sliced differently")
         return [int(x) for x in a[0]]
 
-    out = {"all": dec(m.combine_all())}
-    out["post"] = dec(m.combine_filtered(lambda c: c.type == EpochType.POSTERIOR))
-    out["warm"] = dec(m.combine_filtered(lambda c: EpochType.is_warmup(c.type)))
-    out["gets"] = [dec(m.get_specific_chain(i).get()) for i in range(len(sc["eps"]))]
-    out["comb"] = dec(m.combine(sc["sel"]))
-    out["epochs_ok"] = [(int(e.type), int(e.duration), int(e.thinning)) for e in m.get_epochs()] == \
-        [tuple(e) for e, _ in sc["eps"]]
+    def read():
+        out = {"all": dec(m.combine_all())}
+        out["post"] = dec(m.combine_filtered(lambda c: c.type == EpochType.POSTERIOR))
+        out["warm"] = dec(m.combine_filtered(lambda c: EpochType.is_warmup(c.type)))
+        out["comb"] = dec(m.combine(sc["sel"]))
+        # (the chain handed out by get_specific_chain IS the store; it is read but never edited)
+        out["gets"] = [dec(m.get_specific_chain(i).get(), keep=False) for i in range(len(sc["eps"]))]
+        out["epochs_ok"] = [(int(e.type), int(e.duration), int(e.thinning)) for e in m.get_epochs()] == \
+            [tuple(e) for e, _ in sc["eps"]]
+        return out
+
+    first = read()
+    # history: combine, edit the returned pytrees in place (add / replace / delete a leaf), combine again
+    for tree in trees:
+        if "zz" in tree:            # two calls handed out the very same object
+            continue
+        tree["zz"] = tree["a"]
+        tree["a"] = tree["a"] * 0 - 7
+        del tree["b"]
+    try:
+        out = read()
+    except Exception as ex:
+        out = dict(first)
+        bad.append(f"a second read raises {ex!r:.150} after the containers returned by earlier combine calls were edited in place")
+    if out != first and not bad:
+        diff = [k for k in first if first[k] != out[k]]
+        bad.append(f"{diff[0]}: a second read returns {out[diff[0]]} after the container returned by an earlier "
+                   f"combine call was edited in place (first read {first[diff[0]]})")
     out["inconsistent"] = bad[:1]
     return out
 
@@ -128,7 +154,7 @@ def spec_script(sc):
 def oracle_a(case):
     sc, ob = case["script"], case["obs"]
     if ob["inconsistent"]:
-        return "ListEpochChain: " + ob["inconsistent"][0]
+        return "EpochChainManager: " + ob["inconsistent"][0]
     per = spec_script(sc)
     want_all = [x for _, els, _ in per for x in els]
     want_post = [x for t, els, _ in per if t == 4 for x in els]
@@ -268,6 +294,16 @@ def doc_tracked(cfg):
     return out
 
 
+def tracked_value(st, k):
+    """the tracked quantity k of ONE chain's model state (DerivedInterface: cs_ = cumulative sum, ct_ = centring)"""
+    if k.startswith("cs_") and k[3:] in st:
+        return list(itertools.accumulate(st[k[3:]]))
+    if k.startswith("ct_") and k[3:] in st:
+        x = st[k[3:]]
+        return [v * len(x) - sum(x) for v in x]
+    return list(st[k])
+
+
 def expect(cfg):
     """What the property text says the accessors must return, for the stamp kernels (which encode the
     producing chain / epoch / iteration / kernel order into everything they write)."""
@@ -280,8 +316,9 @@ def expect(cfg):
         st = {"c": [0], "cid": [cid], "junk": [77], "acc": [0]}
         for k, n in sizes.items():
             st[k] = [-(cid * 8 + 8) - j for j in range(n)]
-        samples = {k: [list(st[k])] for k in st}
-        post = {k: [] for k in st}
+        names = list(st) + [k for k in tracked if k not in st]          # + the computed keys cs_<k> / ct_<k>
+        samples = {k: [tracked_value(st, k)] for k in names}
+        post = {k: [] for k in names}
         kst = [(-1, 0, 0)] * nk
         kstates = [list(kst)]
         infos, post_infos = [], []
@@ -309,12 +346,12 @@ def expect(cfg):
                 if t % th == 0:                                  # the states after iterations k, 2k, ...
                     q = [(st["c"][0] * 2 + g + 1, e_idx * 1000 + t) for g in range(ng)]
                     quants.append(q)
-                    for k in st:
-                        samples[k].append(list(st[k]))
+                    for k in samples:
+                        samples[k].append(tracked_value(st, k))
                     if ty == 4:
                         post_quants.append(q)
-                        for k in st:
-                            post[k].append(list(st[k]))
+                        for k in samples:
+                            post[k].append(tracked_value(st, k))
         has_post = any(e[0] == 4 for e in eps[1:])
         chains.append({"samples": samples, "post": post if has_post else None, "infos": infos if len(eps) > 1 else None,
                        "post_infos": post_infos if has_post else None, "kstates": kstates,
@@ -343,6 +380,26 @@ def oracle_b(case):
     nk, ng = len(cfg["kernels"]), cfg["ngens"]
     shapes = {k: list(kit.SHAPES[s]) for ks in cfg["kernels"] for k, s in ks}
     shapes.update({k: list(kit.SHAPES[s]) for k, s in cfg.get("extra", [])})
+    for k in list(cfg["incl"]):
+        if k[:3] in ("cs_", "ct_") and k[3:] in shapes:
+            shapes[k] = shapes[k[3:]]
+    if ob.get("undecodable"):
+        return ("after the containers returned by the accessors were edited in place, a second read of the same results "
+                f"object cannot be decoded any more: {ob['undecodable']}", None)
+    reread = ("second read of the same results object, after the containers returned by the first read were edited in place "
+              f"(entry added / replaced / deleted); the first read differed in {ob['reread_diff']}: ") if ob.get("reread_diff") else ""
+    try:
+        r = _oracle_b_fields(cfg, ob, ex, shapes, nk, ng)
+    except (KeyError, IndexError, TypeError, AttributeError) as exn:
+        r = (f"the accessors' results do not have the documented structure ({exn!r:.120})", None)
+    if r:
+        return (reread + r[0], r[1] if not reread else None)
+    if reread:
+        return (reread + "the accessors are not functions of the stored chains", None)
+    return None
+
+
+def _oracle_b_fields(cfg, ob, ex, shapes, nk, ng):
     key_problem = None
     got_keys = sorted(ob["samples"].keys())
     if got_keys != sorted(ex["tracked"]):
@@ -564,6 +621,18 @@ def gen_b(ctx, rnd):
     add(dict(eq, chunk=2, driver="append:3:each"), "B.append_epoch_history", f)
     add(dict(eq, chunk=4, driver="append:2:bulk"), "B.append_epoch_history", f)
 
+    # a user-defined ModelInterface whose tracked quantities are COMPUTED per chain (cumulative sum, centring), initial
+    # states that differ between the chains: index 0 must be extract_position of each chain's own initial state
+    add({"epochs": [[0, 1, 1], [1, 4, 2], [4, 3, 1]], "nchains": 3, "iface": "derived",
+         "kernels": [[["p1", "v3"]], [["p2", "s"]]], "extra": [["x", "m22"]],
+         "incl": ["cs_p1", "ct_p1", "cs_p2", "ct_p2", "ct_x", "cs_cid", "acc"], "excl": [], "ngens": 1, "store_ks": False},
+        "B.computed_tracked_quantities")
+    # an excluded key owned by a kernel that declares needs_history (builder path and explicit position_keys)
+    nh = {"epochs": [[0, 1, 1], [2, 4, 2], [1, 2, 1], [4, 4, 2]], "nchains": 2, "kernels": [[["p1", "v3"]], [["p2", "s"], ["p3", "v1"]]],
+          "needs_hist": [False, True], "incl": ["acc"], "excl": ["p2"], "ngens": 0, "store_ks": True}
+    add(nh, "B.sel_excluded_key_of_history_kernel")
+    add(dict(nh, chunk=2, excl=["p2", "p3", "p1"], incl=["c"]), "B.sel_excluded_key_of_history_kernel")
+
     # ---- forced strata ----
     n_rounds = 1 if ctx.quick else 8
     sel_kinds = ["default", "incl", "excl_one", "incl_excl_overlap", "incl_dup_kernel_key", "excl_unknown",
@@ -614,6 +683,23 @@ def gen_b(ctx, rnd):
         g = sched_gcd(eps)
         k = rnd.randint(1, len(eps) - 1)
         add(dict(cfg, chunk=rnd.choice(divisors(g)), driver=f"append:{k}:{rnd.choice(['each', 'bulk'])}"), "B.append_epoch_history", f)
+        if r > 0:
+            # computed tracked quantities / history-needing kernels, randomised
+            kernels, extra = gen_layout(rnd, nk=rnd.choice([1, 2]))
+            kk = [k for ks in kernels for k, _ in ks] + [k for k, _ in extra] + ["cid", "c"]
+            incl = [rnd.choice(["cs_", "ct_"]) + k for k in rnd.sample(kk, min(len(kk), rnd.randint(2, 4)))]
+            add({"epochs": gen_sched(rnd, maxk=4), "nchains": rnd.choice([2, 3]), "iface": "derived", "kernels": kernels, "extra": extra,
+                 "incl": incl, "excl": [], "ngens": 0, "store_ks": False, "driver": rnd.choice(["all", "step"])},
+                "B.computed_tracked_quantities")
+            kernels, extra = gen_layout(rnd, nk=rnd.choice([2, 3]))
+            needs = [rnd.random() < 0.6 for _ in kernels]
+            needs[rnd.randrange(len(needs))] = True
+            own = [k for ks, n in zip(kernels, needs) if n for k, _ in ks]
+            eps = gen_sched(rnd, nwarm=rnd.randint(1, 2), npost=1, maxk=4)
+            g = sched_gcd(eps)
+            add({"epochs": eps, "nchains": rnd.choice([1, 2]), "kernels": kernels, "extra": extra, "needs_hist": needs,
+                 "incl": ["acc"], "excl": [rnd.choice(own)], "ngens": 0, "store_ks": False,
+                 "chunk": rnd.choice([None, g])}, "B.sel_excluded_key_of_history_kernel")
         # shapes: every payload shape controlled by some kernel and tracked
         kernels = [[[f"p{i + 1}", s] for i, s in enumerate(SHAPE_NAMES[:3])], [[f"p{i + 4}", s] for i, s in enumerate(SHAPE_NAMES[3:])]]
         add({"epochs": gen_sched(rnd, maxk=4, thins=(1, 2)), "nchains": 2, "kernels": kernels, "extra": [["x", "m42"]],
@@ -685,7 +771,10 @@ def cobs_lit(cfg, ob, cid):
 def e2e_lit(case):
     cfg, ob = case["cfg"], case["obs"]
     err = bool(ob.get("error"))
-    chains = [] if err else [cobs_lit(cfg, ob, cid) for cid in range(cfg["nchains"])]
+    try:
+        chains = [] if (err or ob.get("undecodable")) else [cobs_lit(cfg, ob, cid) for cid in range(cfg["nchains"])]
+    except (KeyError, IndexError, TypeError, AttributeError):
+        chains = []          # malformed observation: no chain to compare, agrees_e2e is false
     return "(mkX {sched} {chunk} {kers} {extra} {incl} {excl} {ng} {st} {err} {chains})".format(
         sched=lst(econf(e) for e in cfg["epochs"]),
         chunk=opt(cfg["chunk"], natlit),
@@ -839,6 +928,8 @@ def run(ctx) -> int:
         "lax.scan = left fold, vmap = per-chain map, jit = identity (the engine model is per chain); checked on every run by comparing each chain of the real vmapped/jitted/scanned run with the model",
         "pytree slicing / concatenation of chunks (slice_leaves, concatenate_leaves) acts leafwise and chainwise: tested with two leaves and several chains in part A, all payload shapes in part B",
         "part C: identical results of the real engine for every admissible jitted duration and every driver - sample_all_epochs, sample_next_epoch one by one, epochs handed over later with append_epoch (tested on the generated families; the theorems are about the model run on the whole schedule, the call-trace version of incremental = batch is C07's)",
+        "accessors are functions of the stored chains: every engine run and every chain-manager script reads all accessors, edits the returned containers in place (entry added / replaced / deleted) and reads again; the second read is what the model is compared with (aliasing is outside the functional model)",
+        "a user-defined ModelInterface with computed tracked quantities (cumulative sum / centring per chain) and per-chain different initial states: index 0 and all later entries per chain against the model (vmap = per-chain map is modelled, not proved)",
         "payload shape of stored arrays equals the shape in the model state (tested; the model stores flattened payloads)"]
     ctx.extra_tb = ["harness stamp kernels / generators (harness/lv/c08_kit.py) and their Gallina counterparts (Goose/CorrC08.v: stamp_kernel, stamp_gen, c_pre, c_post)",
                     "DictInterface.extract_position / update_state are modelled as dictionary lookup / update",
